@@ -72,4 +72,9 @@ META = {
         "note": "Trusted: Lean kernel; model; DashMap; values read back with their stored type.",
         "design_ref": "DESIGN.md §4 C25",
     },
+    "C26": {
+        "text": "Interleaving invariant over any number of threads, lookups and schedules at atomic-operation granularity: every instance a thread has received for a name is the registered one and registrations are never replaced; hence all concurrent first users get the same instance (C26_unique) and it stays the one later lookups return (C26_stable). The pre-fix get-then-insert protocol is refuted by a two-thread schedule. Tie: 2-32 real threads behind a barrier in a fresh process per case; number of distinct instances per name and stability compared with the theorem's prediction.",
+        "note": "Trusted: Lean kernel; interleaving model; atomicity of DashMap::entry and OnceLock; real-thread runs sample schedules only.",
+        "design_ref": "DESIGN.md §4 C26",
+    },
 }
